@@ -1,0 +1,144 @@
+//! verif-hooks (C19, add-only): renders the real router-info and router-list
+//! HTML pages for the external verification harness.
+//!
+//! Nothing here has behaviour of its own: a real `BmpState` is fed real BMP
+//! messages (`Message::from_octets` + `BmpState::process_msg`, as
+//! `RouterHandler` does), the real `RouterInfoApi` / `RouterListApi` are
+//! constructed the way `BmpTcpInRunner` constructs them, and requests go
+//! through their `ProcessRequest::process_request`.
+use std::net::IpAddr;
+use std::sync::Arc;
+
+use arc_swap::ArcSwap;
+use bytes::Bytes;
+use hyper::{Body, Request};
+use routecore::bmp::message::Message as BmpMsg;
+
+use crate::common::frim::FrimMap;
+use crate::http::{self, ProcessRequest};
+use crate::ingress::{IngressId, IngressInfo, Register};
+
+use super::http::{RouterInfoApi, RouterListApi};
+use super::metrics::BmpTcpInMetrics;
+use super::state_machine::{BmpState, BmpStateMachineMetrics};
+use super::status_reporter::BmpTcpInStatusReporter;
+use super::types::RouterInfo;
+use super::util::format_source_id;
+
+/// One monitored router (ingress id 2, under unit id 1) and the two HTML
+/// endpoints of the unit.
+pub struct Pages {
+    info_api: RouterInfoApi,
+    list_api: RouterListApi,
+    _state: Arc<tokio::sync::Mutex<Option<BmpState>>>,
+    /// The phase the state machine is in after the messages (its Debug name).
+    pub ingress_id: IngressId,
+}
+
+impl Pages {
+    /// `msgs`: complete BMP messages fed to the state machine in order.
+    /// `parse_errors`: entries pushed to the router's parse-error ring
+    /// buffer (`ParseErrorsRingBuffer::push`), as the state machine does
+    /// when an UPDATE fails to parse.
+    pub fn new(
+        api_path: &str,
+        remote: IpAddr,
+        msgs: Vec<Vec<u8>>,
+        parse_errors: Vec<(String, Option<Vec<u8>>, bool)>,
+    ) -> Result<Self, String> {
+        let register = Arc::new(Register::new());
+        let unit_id = register.register();
+        let ingress_id = register.register();
+        register.update_info(
+            ingress_id,
+            IngressInfo::new().with_parent(unit_id).with_remote_addr(remote),
+        );
+        let conn_metrics = Arc::new(BmpTcpInMetrics::default());
+        let sm_metrics = Arc::new(BmpStateMachineMetrics::new());
+        let template = "{sys_name}".to_string();
+        let router_id =
+            Arc::new(format_source_id(&template, "unknown", ingress_id));
+        let reporter = Arc::new(BmpTcpInStatusReporter::new(
+            "verif",
+            conn_metrics.clone(),
+        ));
+        let mut state = BmpState::new(
+            ingress_id,
+            router_id.clone(),
+            reporter,
+            sm_metrics.clone(),
+            register.clone(),
+        );
+        for m in msgs {
+            let msg = BmpMsg::from_octets(Bytes::from(m))
+                .map_err(|e| format!("{e}"))?;
+            let res =
+                state.process_msg(std::time::Instant::now(), msg, None);
+            state = res.next_state;
+        }
+        for (msg, bytes, recoverable) in parse_errors {
+            sm_metrics.router_metrics(router_id.clone()).parse_errors.push(
+                msg,
+                bytes.map(Bytes::from),
+                recoverable,
+            );
+        }
+        let state = Arc::new(tokio::sync::Mutex::new(Some(state)));
+        let api_path = Arc::new(api_path.to_string());
+        let info = RouterInfo::new();
+        let info_api = RouterInfoApi::new(
+            http::Resources::default(),
+            api_path.clone(),
+            ingress_id,
+            conn_metrics.clone(),
+            sm_metrics.clone(),
+            info.connected_at,
+            info.last_msg_at.clone(),
+            Arc::downgrade(&state),
+            register.clone(),
+        );
+        let router_info = Arc::new(FrimMap::default());
+        router_info.insert(ingress_id, Arc::new(info));
+        let router_states = Arc::new(FrimMap::default());
+        router_states.insert(ingress_id, state.clone());
+        let list_api = RouterListApi::new(
+            http::Resources::default(),
+            api_path,
+            router_info,
+            conn_metrics,
+            sm_metrics,
+            Arc::new(ArcSwap::from_pointee(template)),
+            router_states,
+            register,
+        );
+        Ok(Pages { info_api, list_api, _state: state, ingress_id })
+    }
+
+    async fn body(
+        resp: Option<hyper::Response<Body>>,
+    ) -> Option<(u16, Vec<u8>)> {
+        match resp {
+            None => None,
+            Some(r) => {
+                let status = r.status().as_u16();
+                let bytes = hyper::body::to_bytes(r.into_body())
+                    .await
+                    .map(|b| b.to_vec())
+                    .unwrap_or_default();
+                Some((status, bytes))
+            }
+        }
+    }
+
+    /// `GET <uri>` through `RouterInfoApi::process_request`.
+    pub async fn router_info(&self, uri: &str) -> Option<(u16, Vec<u8>)> {
+        let req = Request::get(uri).body(Body::empty()).ok()?;
+        Self::body(self.info_api.process_request(&req).await).await
+    }
+
+    /// `GET <uri>` through `RouterListApi::process_request`.
+    pub async fn router_list(&self, uri: &str) -> Option<(u16, Vec<u8>)> {
+        let req = Request::get(uri).body(Body::empty()).ok()?;
+        Self::body(self.list_api.process_request(&req).await).await
+    }
+}
